@@ -1,4 +1,592 @@
-/- C02 — model and specification (stub; see HACKING.md) -/
+/-
+  C02 — valid input is parsed to the end; no valid instruction truncates the model.
+
+  Two groups of definitions (HACKING.md):
+
+  * the **model**: an interpreter for the *requirements* of the per-keyword handlers of
+    `Shelxfile._parse_cards` and of the card constructors of `cards.py`.  The requirement tables themselves
+    (`dispatch`, `cardTable`, `atomSteps`, `shxCards`) are REGENERATED from the source on every run by
+    `extract/tables_c02.py` (`ShelxModel/Extracted/C02Dispatch.lean`); this file only says what a requirement
+    means: which token is indexed without a length check, which token goes through `float()`/`int()`, which
+    undefined name is evaluated, which `raise` is reachable in which diagnostic mode.  Exceptions are values
+    (`Except Err St`).  `parseAll` mirrors `parse_cards`: one try/except around the whole loop — quiet and
+    verbose swallow the exception and STOP, debug re-raises.
+
+  * the **spec**: the code-independent SHELXL syntax table (`syntaxTable`, DESIGN.md Appendix A / the syntax
+    summary the library documents in `cards.py`) with `validForms`, and the statement "every line is consumed,
+    nothing raises, in every mode".
+-/
 namespace Shelx.C02
+
+/-! ## Tokens, modes, errors -/
+
+/-- the lexical classes of a parameter token that the handlers can tell apart -/
+inductive Kind
+  | int    -- `3`, `-2`           float() ok, int() ok, first char digit/sign
+  | num    -- `0.25`, `-1.2`      float() ok, int() raises, first char digit/sign
+  | big    -- `10.25`, `21.0`     as `num`, value > 4 (free-variable coded parameter)
+  | dnum   -- `.5`                float() ok, int() raises, first char '.'  (a *word* for Command._parse_line)
+  | word   -- `C1`, `$H`, `NOHKL` float() raises
+  | sym    -- `-x,`, `1/2+y,`     first char digit/sign but float() raises
+  deriving DecidableEq, Repr
+
+def Kind.floatOk : Kind → Bool
+  | .int | .num | .big | .dnum => true
+  | _ => false
+
+def Kind.intOk : Kind → Bool
+  | .int => true
+  | _ => false
+
+/-- the numeric test of `Command._parse_line`: first character a digit or a sign — and, when the
+    regenerated flag `dot` says so, a decimal point -/
+def Kind.cmdNumeric (dot : Bool) : Kind → Bool
+  | .int | .num | .big | .sym => true
+  | .dnum => dot
+  | .word => false
+
+/-- `'.' in token` (used by `is_atom` on the second column) -/
+def Kind.hasDot : Kind → Bool
+  | .num | .big | .dnum => true
+  | _ => false
+
+inductive Mode | quiet | verbose | debug
+  deriving DecidableEq, Repr
+
+def allModes : List Mode := [.quiet, .verbose, .debug]
+
+inductive Err
+  | IndexError | ValueError | NameError | AttributeError | KeyError | ParseError | Other
+  deriving DecidableEq, Repr
+
+/-! ## Handler requirements (the shape of the regenerated tables) -/
+
+inductive Cond
+  | sEq (n : Nat) | sNe (n : Nat) | sGt (n : Nat) | sLt (n : Nat) | sGe (n : Nat) | sLe (n : Nat)   -- len(spline) ? n
+  | pEq (n : Nat) | pNe (n : Nat) | pGt (n : Nat) | pLt (n : Nat) | pGe (n : Nat) | pLe (n : Nat)   -- len(p) ? n  (numeric parameters)
+  | wEq (n : Nat) | wNe (n : Nat) | wGt (n : Nat) | wLt (n : Nat) | wGe (n : Nat) | wLe (n : Nat)   -- len(words) ? n
+  | modeIn (ms : List Mode)
+  | lastEq (kw : String) | lastNe (kw : String)       -- lastcard == / != kw
+  | lastIn (kws : List String) | lastNotIn (kws : List String)
+  | flagOn (f : String) | flagOff (f : String)         -- truthiness of a parser attribute (self.frag, self.end, …)
+  | caught (k : Nat) (es : List Err)                   -- inside the handler of try #k for the classes `es`
+  | notCaught (k : Nat)                                -- later in the body of try #k / after it without exception
+  | restAlpha (a : Nat) | restNotAlpha (a : Nat)       -- ''.join(spline[a:]).isalpha()
+  | opaque (txt : String)                              -- a test the translator does not interpret
+  deriving DecidableEq, Repr
+
+inductive Act
+  | needS (i : Nat)            -- spline[i]
+  | needP (i : Nat)            -- p[i]
+  | needW (i : Nat)            -- words[i]
+  | popS (i : Nat)             -- spline.pop(i)
+  | popP                       -- p.pop(0)
+  | toFloat (i : Nat)          -- float(spline[i])
+  | toInt (i : Nat)            -- int(spline[i])
+  | floatFrom (a : Nat)        -- float(x) for x in spline[a:]
+  | floatRange (a b : Nat)     -- float(x) for x in spline[a:b]
+  | intNonWord (a : Nat)       -- int(x) for every x in spline[a:] that contains no letter (RESI)
+  | unpackP (n : Nat)          -- a, b = p
+  | parseCmd (intnums : Bool)  -- Command._parse_line(spline, intnums)
+  | parseRestr                 -- Restraint._parse_line(spline)
+  | card (cls : String) (idx : Nat)   -- Cls(self, spline); `idx` = position of the class in `Tables.cards`
+  | raise (e : Err)
+  | stop                       -- `continue`
+  | setLast (kw : String)      -- lastcard = kw
+  | setFlag (f : String) (v : Bool)
+  | unknown (txt : String)     -- statement that did not fit any pattern: treated as raising
+  deriving DecidableEq, Repr
+
+structure Step where
+  conds : List Cond := []
+  catches : List Err := []     -- exception classes caught by the enclosing try
+  tid : Nat := 0
+  act : Act
+  deriving DecidableEq, Repr
+
+/-- a keyword as a number (base 256 of its characters): the kernel compares numbers much faster than strings -/
+def encode (s : String) : Nat := s.toList.foldl (fun a c => a * 256 + c.toNat) 0
+
+inductive Test
+  | wordEq (kw : String) (code : Nat)                -- `code = encode kw`, checked by `codes_consistent`
+  | wordIn (kws : List String) (codes : List Nat)
+  | starts (pre : String) (code : Nat)               -- `line.startswith(pre)`: the keyword *is* `pre` (REM, END)
+  | isAtom
+  | otherwise
+  deriving DecidableEq, Repr
+
+structure Branch where
+  test : Test
+  steps : List Step
+  deriving DecidableEq, Repr
+
+structure CardReq where
+  name : String
+  steps : List Step
+  deriving DecidableEq, Repr
+
+/-- what the regenerated file provides -/
+structure Tables where
+  shxCards : List String
+  shxCodes : List Nat := shxCards.map encode
+  dispatch : List Branch
+  cards : List CardReq
+  atomMinCols : Nat
+  dotNumeric : Bool := false         -- Command._parse_line takes `.5` for a number
+  atomRejectsBig : Bool := true      -- is_atom refuses a line with a raw coordinate above 4.0
+  assumedFalse : List String := []   -- opaque tests that valid input never triggers (spec side, see `assumed`)
+  deriving Repr
+
+/-! ## Interpreter -/
+
+structure St where
+  s : List Kind              -- kinds of spline (index 0 = the keyword itself)
+  np : Nat := 0
+  nw : Nat := 0
+  caught : List (Nat × Err) := []
+  last : String := ""        -- lastcard
+  flags : List String := []  -- parser attributes that are truthy
+  stopped : Bool := false
+  dot : Bool := false        -- copy of `Tables.dotNumeric`
+  deriving DecidableEq, Repr
+
+def Cond.eval (assumedFalse : List String) (m : Mode) (st : St) : Cond → Bool
+  | .sEq n => st.s.length == n | .sNe n => st.s.length != n | .sGt n => st.s.length > n
+  | .sLt n => st.s.length < n | .sGe n => st.s.length ≥ n | .sLe n => st.s.length ≤ n
+  | .pEq n => st.np == n | .pNe n => st.np != n | .pGt n => st.np > n
+  | .pLt n => st.np < n | .pGe n => st.np ≥ n | .pLe n => st.np ≤ n
+  | .wEq n => st.nw == n | .wNe n => st.nw != n | .wGt n => st.nw > n
+  | .wLt n => st.nw < n | .wGe n => st.nw ≥ n | .wLe n => st.nw ≤ n
+  | .modeIn ms => ms.contains m
+  | .lastEq k => st.last == k | .lastNe k => st.last != k
+  | .lastIn ks => ks.contains st.last | .lastNotIn ks => !ks.contains st.last
+  | .flagOn f => st.flags.contains f | .flagOff f => !st.flags.contains f
+  | .caught k es => st.caught.any (fun p => p.1 == k && es.contains p.2) | .notCaught k => !st.caught.any (fun p => p.1 == k)
+  | .restAlpha a => (st.s.drop a).all (· == .word) | .restNotAlpha a => !(st.s.drop a).all (· == .word)
+  | .opaque t => !assumedFalse.contains t
+
+def allFloat (l : List Kind) : Bool := l.all Kind.floatOk
+
+/-- the parser attributes whose truthiness the handlers test, in a fixed order (so that contexts are canonical) -/
+def flagUniverse : List String := ["cell", "latt", "sfac", "frag", "end"]
+
+/-- `Command._parse_line`: a token whose first character is a digit or sign goes through `float()`/`int()` -/
+def parseCmdOk (dot intnums : Bool) (l : List Kind) : Bool :=
+  l.all fun k => !k.cmdNumeric dot || (if intnums then k.intOk else k.floatOk)
+
+def countP (dot restr : Bool) (l : List Kind) : Nat :=
+  (l.filter fun k => if restr then k.floatOk else k.cmdNumeric dot).length
+
+/-- the acts that need no table -/
+def execBasic (st : St) : Act → Except Err St
+  | .needS i => if i < st.s.length then .ok st else .error .IndexError
+  | .needP i => if i < st.np then .ok st else .error .IndexError
+  | .needW i => if i < st.nw then .ok st else .error .IndexError
+  | .popS i => if i < st.s.length then .ok { st with s := st.s.eraseIdx i } else .error .IndexError
+  | .popP => if 0 < st.np then .ok { st with np := st.np - 1 } else .error .IndexError
+  | .toFloat i => match st.s[i]? with
+      | none => .error .IndexError
+      | some k => if k.floatOk then .ok st else .error .ValueError
+  | .toInt i => match st.s[i]? with
+      | none => .error .IndexError
+      | some k => if k.intOk then .ok st else .error .ValueError
+  | .floatFrom a => if allFloat (st.s.drop a) then .ok st else .error .ValueError
+  | .floatRange a b => if allFloat ((st.s.take b).drop a) then .ok st else .error .ValueError
+  | .intNonWord a => if (st.s.drop a).all (fun k => k == .word || k.intOk) then .ok st else .error .ValueError
+  | .unpackP n => if st.np == n then .ok st else .error .ValueError
+  | .parseCmd i =>
+      if parseCmdOk st.dot i (st.s.drop 1) then
+        .ok { st with np := countP st.dot false (st.s.drop 1), nw := (st.s.drop 1).length - countP st.dot false (st.s.drop 1) }
+      else .error .ValueError
+  | .parseRestr =>
+      match st.s with
+      | [] => .error .IndexError
+      | _ :: r => .ok { st with np := countP st.dot true r, nw := r.length - countP st.dot true r }
+  | .card _ _ => .error .Other        -- resolved by `exec`
+  | .raise e => .error e
+  | .stop => .ok { st with stopped := true }
+  | .setLast k => .ok { st with last := k }
+  | .setFlag f v => .ok { st with flags := flagUniverse.filter fun g => if g == f then v else st.flags.contains g }
+  | .unknown _ => .error .Other
+
+/-- one step under its guard; an exception of a caught class marks the try as caught and goes on -/
+def stepWith (ex : St → Act → Except Err St) (af : List String) (m : Mode) (st : St) (sp : Step) : Except Err St :=
+  if st.stopped then .ok st
+  else if sp.conds.all (Cond.eval af m st) then
+    match ex st sp.act with
+    | .ok st' => .ok st'
+    | .error e => if sp.catches.contains e then .ok { st with caught := (sp.tid, e) :: st.caught } else .error e
+  else .ok st
+
+def runWith (ex : St → Act → Except Err St) (af : List String) (m : Mode) : St → List Step → Except Err St
+  | st, [] => .ok st
+  | st, sp :: rest =>
+    match stepWith ex af m st sp with
+    | .ok st' => runWith ex af m st' rest
+    | .error e => .error e
+
+def runBasic (af : List String) (m : Mode) (st : St) (steps : List Step) : Except Err St :=
+  runWith execBasic af m st steps
+
+/-- acts of the dispatch chain: `card` runs the constructor's requirements on the same spline -/
+def exec (T : Tables) (m : Mode) (st : St) : Act → Except Err St
+  | .card cls idx =>
+    match T.cards[idx]? with
+    | none => .error .Other
+    | some c =>
+      match runBasic T.assumedFalse m { st with np := 0, nw := 0, caught := [], stopped := false } c.steps with
+      | .ok st' => .ok { st with s := st'.s }     -- a constructor may pop from the shared spline (RTAB)
+      | .error e => .error e
+  | a => execBasic st a
+
+def runSteps (T : Tables) (m : Mode) (st : St) (steps : List Step) : Except Err St :=
+  runWith (exec T m) T.assumedFalse m st steps
+
+/-! ## Lines, branch selection -/
+
+/-- an abstract line: the keyword as written (upper case, without residue suffix), the kinds of the
+    parameter tokens, and whether a `!` sits in column 6 (lone-pair lines are not atoms) -/
+structure Form where
+  kw : String
+  toks : List Kind
+  code : Nat := encode kw     -- numeric keyword: the kernel compares numbers, not strings
+  deriving DecidableEq, Repr
+
+def Form.spline (f : Form) : List Kind := .word :: f.toks
+
+/-- `line[:4]` of the upper-cased line, right-stripped.  (The chain compares `word` with four-letter constants only;
+    the three-letter keywords REM and END are tested with `line.startswith`; `SHX_CARDS` lists them with and without
+    the trailing blank.  Kept a plain projection so that the kernel does not rebuild the string at every branch.) -/
+def Form.word (f : Form) : String := f.kw
+
+def Form.isAtomName (T : Tables) (f : Form) : Bool := !T.shxCodes.contains f.code
+
+/-- `Shelxfile.is_atom` on the abstract line (column limit regenerated, coordinate limit 4.0 = kind `big`) -/
+def lineIsAtom (T : Tables) (f : Form) : Bool :=
+  f.isAtomName T && f.spline.length ≥ T.atomMinCols &&
+    (match f.spline[1]? with | some k => !k.hasDot | none => false) &&
+    !(T.atomRejectsBig && ((f.spline.take 5).drop 2).any (· == .big))
+
+def Test.holds (T : Tables) (f : Form) : Test → Bool
+  | .wordEq _ k => f.code == k
+  | .wordIn _ ks => ks.contains f.code
+  | .starts _ c => f.code == c
+  | .isAtom => lineIsAtom T f
+  | .otherwise => true
+
+/-- the numeric keyword codes of the regenerated table are the codes of its strings -/
+def Test.codesOk : Test → Bool
+  | .wordEq k c => encode k == c
+  | .wordIn ks cs => ks.map encode == cs
+  | .starts p c => encode p == c
+  | _ => true
+
+def Act.cardIdxOk (cards : List CardReq) : Act → Bool
+  | .card cls i => (cards[i]?.map (·.name)) == some cls
+  | _ => true
+
+def Tables.codesOk (T : Tables) : Bool :=
+  T.dispatch.all (fun b => b.test.codesOk && b.steps.all (·.act.cardIdxOk T.cards)) && T.shxCards.map encode == T.shxCodes
+
+def selectBranch (T : Tables) (f : Form) : Option Branch := T.dispatch.find? (fun b => b.test.holds T f)
+
+/-- the parser context a line meets -/
+structure Ctx where
+  last : String := ""
+  flags : List String := []
+  deriving DecidableEq, Repr
+
+/-- the handler of one selected branch on one line -/
+def runBranch (T : Tables) (m : Mode) (c : Ctx) (b : Branch) (f : Form) : Except Err Ctx :=
+  match runSteps T m { s := f.spline, last := c.last, flags := c.flags, dot := T.dotNumeric } b.steps with
+  | .ok st => .ok { last := st.last, flags := st.flags }
+  | .error e => .error e
+
+/-- `is_atom` itself converts the three coordinate columns with `float()` (in `_coordinates_are_unrealistic`) once the
+    name, the column count and the sfac column look like an atom: a non-numeric coordinate raises inside the test -/
+def atomTestRaises (T : Tables) (f : Form) : Bool :=
+  f.isAtomName T && f.spline.length ≥ T.atomMinCols &&
+    (match f.spline[1]? with | some k => !k.hasDot | none => false) && !allFloat ((f.spline.take 5).drop 2)
+
+/-- one iteration of the loop of `_parse_cards` on a non-blank line -/
+def stepLine (T : Tables) (m : Mode) (c : Ctx) (f : Form) : Except Err Ctx :=
+  if atomTestRaises T f then .error .ValueError else
+  match selectBranch T f with
+  | none => .ok c
+  | some b => runBranch T m c b f
+
+/-- branch selection for a line whose first word is one of `SHX_CARDS` (then `is_atom` is false whatever follows):
+    it depends on the keyword only, so it is computed once per keyword -/
+def Test.holdsKw (code : Nat) : Test → Bool
+  | .wordEq _ k => code == k
+  | .wordIn _ ks => ks.contains code
+  | .starts _ c => code == c
+  | .isAtom => false
+  | .otherwise => true
+
+def selectKw (T : Tables) (code : Nat) : Option Branch := T.dispatch.find? (fun b => b.test.holdsKw code)
+
+def accepts (T : Tables) (m : Mode) (c : Ctx) (f : Form) : Bool := (stepLine T m c f).toBool
+
+/-! ## The whole file: `parse_cards` -/
+
+structure Outcome where
+  lastLine : Nat            -- error_line_num when the loop ended (index of the last line looked at)
+  consumed : Nat            -- number of lines handed to a handler without exception
+  innerErr : Option Err     -- exception that left `_parse_cards`
+  raised : Option Err       -- exception that left `parse_cards` (debug re-raises)
+  ctx : Ctx
+  deriving DecidableEq, Repr
+
+def loop (T : Tables) (m : Mode) : Ctx → Nat → List Form → Outcome
+  | c, i, [] => { lastLine := i - 1, consumed := i, innerErr := none, raised := none, ctx := c }
+  | c, i, f :: rest =>
+    match stepLine T m c f with
+    | .ok c' => loop T m c' (i + 1) rest
+    | .error e => { lastLine := i, consumed := i, innerErr := some e,
+                    raised := if m == .debug then some e else none, ctx := c }
+
+def parseAll (T : Tables) (m : Mode) (file : List Form) : Outcome := loop T m {} 0 file
+
+/-! ## Specification: the SHELXL syntax table (code independent) -/
+
+inductive Slot
+  | titl | cell | zerr | latt | symm | neut | sfac | disp | unit   -- header, in this order
+  | body        -- anywhere between UNIT and HKLF (instruction section or atom list), and — leniently — elsewhere
+  | fvar | hklf | endd | tail   -- FVAR before the atoms, HKLF, END, after END (WGHT suggestion, Q-peaks)
+  | frag | fend                 -- FRAG … FEND block inside the atom list
+  deriving DecidableEq, Repr
+
+structure Syn where
+  kw : String
+  code : Nat                         -- `encode kw` (checked by `syntax_codes_ok`)
+  slot : Slot := .body
+  mand : List Kind := []
+  opts : List (List Kind) := []      -- optional parameter groups; any prefix of the list is legal
+  tails : List (List Kind) := [[]]   -- alternatives for the trailing atom-name / free list
+  alts : List (List Kind) := []      -- further complete parameter lists (second syntax of the keyword)
+  suffix : Bool := false             -- may carry `_n`, `_CLASS`, `_*` on the keyword
+  documented : Bool := true          -- part of the syntax summary the library documents (cards.py docstring)
+  deriving Repr
+
+open Kind in
+/-- Appendix A of DESIGN.md.  `num` marks a real-valued parameter (written as `2`, `2.0`, `.5` … see `styles`),
+    `int` an integer one, `word` a name, `sym` a symmetry-operator fragment. -/
+def syntaxTable : List Syn := [
+  -- header objects
+  { kw := "TITL", code := 1414091852, slot := .titl, tails := [[], [word], [word, word, int, sym]] },
+  { kw := "CELL", code := 1128614988, slot := .cell, mand := [num, big, big, big, big, big, big] },
+  { kw := "ZERR", code := 1514492498, slot := .zerr, mand := [num, num, num, num, num, num, num], alts := [[int, num, num, num, num, num, num]] },
+  { kw := "LATT", code := 1279349844, slot := .latt, opts := [[int]] },
+  { kw := "SYMM", code := 1398361421, slot := .symm, mand := [sym, sym, sym], alts := [[sym], [sym, word, sym], [word, sym, word]] },
+  { kw := "NEUT", code := 1313166676, slot := .neut },
+  { kw := "SFAC", code := 1397113155, slot := .sfac, tails := [[word], [word, word], [word, word, word, word]],
+    alts := [[word, num, num, num, num, num, num, num, num, num, num, num, num, num, num]] },
+  { kw := "DISP", code := 1145656144, slot := .disp, mand := [word, num, num], opts := [[num], [num]] },
+  { kw := "UNIT", code := 1431193940, slot := .unit, tails := [[num], [num, num, num], [int, int, int]] },
+  -- numeric-parameter objects
+  { kw := "L.S.", code := 1278104366, opts := [[int], [int], [int]] },
+  { kw := "CGLS", code := 1128746067, opts := [[int], [int], [int]] },
+  { kw := "ABIN", code := 1094863182, mand := [int, int] },
+  { kw := "ACTA", code := 1094931521, opts := [[num]], tails := [[], [word]] },
+  { kw := "DAMP", code := 1145130320, opts := [[num], [int]] },
+  { kw := "FMAP", code := 1179468112, opts := [[int], [int], [int]] },
+  { kw := "GRID", code := 1196575044, opts := [[num], [num], [num], [num], [num], [num]] },
+  { kw := "HKLF", code := 1212894278, slot := .hklf, opts := [[int], [num], [int, int, int, int, int, int, int, int, int], [num], [int]] },
+  { kw := "MERG", code := 1296388679, opts := [[int]] },
+  { kw := "MORE", code := 1297044037, opts := [[int]] },
+  { kw := "MOVE", code := 1297045061, opts := [[num], [num], [num], [int]] },
+  { kw := "PLAN", code := 1347174734, opts := [[int], [num], [num]] },
+  { kw := "PRIG", code := 1347569991, opts := [[num]] },
+  { kw := "SHEL", code := 1397245260, opts := [[num], [num]] },
+  { kw := "SIZE", code := 1397316165, mand := [num, num, num] },
+  { kw := "SPEC", code := 1397769539, opts := [[num]] },
+  { kw := "STIR", code := 1398032722, mand := [num], opts := [[num]] },
+  { kw := "SWAT", code := 1398227284, opts := [[num], [num]] },
+  { kw := "TWIN", code := 1415006542, opts := [[int, int, int, int, int, int, int, int, int], [int]],
+    alts := [[num, num, num, num, num, num, num, num, num], [num, num, num, num, num, num, num, num, num, int]] },
+  { kw := "TWST", code := 1415009108, opts := [[int]] },
+  { kw := "WGHT", code := 1464289364, opts := [[num], [num], [num], [num], [num], [num]] },
+  { kw := "WIGL", code := 1464420172, opts := [[num], [num]] },
+  { kw := "WPDB", code := 1464878146, opts := [[int]] },
+  { kw := "XNPD", code := 1481527364, opts := [[num]] },
+  { kw := "BASF", code := 1111577414, tails := [[num], [num, num, num]] },
+  { kw := "SUMP", code := 1398099280, mand := [num, num], tails := [[num, int], [num, int, num, int], [num, int, num, int, num, int]] },
+  { kw := "FVAR", code := 1180057938, slot := .fvar, tails := [[num], [num, num], [num, num, num, num, num, num, num]] },
+  -- value only, line kept raw
+  { kw := "LIST", code := 1279873876, opts := [[int], [int]] },
+  { kw := "TEMP", code := 1413827920, opts := [[num]] },
+  { kw := "EXTI", code := 1163416649, opts := [[num]] },
+  { kw := "ANSC", code := 1095652163, mand := [num, num, num, num, num, num] },
+  { kw := "ANSR", code := 1095652178, opts := [[num]] },
+  { kw := "EQIV", code := 1162955094, mand := [word, sym, sym, sym], alts := [[word, sym], [word, sym, word, sym], [word, word, sym, word]] },
+  { kw := "OMIT", code := 1330465108, tails := [[word], [word, word, word]], alts := [[], [num], [num, num], [int, int, int]], suffix := true },
+  { kw := "LAUE", code := 1279350085, mand := [word] },
+  { kw := "REM", code := 5391693, tails := [[], [word], [word, sym, int, num, word]] },
+  { kw := "END", code := 4542020, slot := .endd },
+  { kw := "FRAG", code := 1179795783, slot := .frag, opts := [[int], [num, num, num, big, big, big]] },
+  { kw := "FEND", code := 1178947140, slot := .fend },
+  -- context objects
+  { kw := "RESI", code := 1380275017, alts := [[], [int], [word], [word, int], [int, word], [word, int, int], [int, word, int]] },
+  { kw := "PART", code := 1346458196, mand := [int], opts := [[num]] },
+  { kw := "AFIX", code := 1095125336, mand := [int], opts := [[num], [num], [num]] },
+  -- atom-list objects
+  { kw := "ANIS", code := 1095649619, tails := [[], [int], [word], [word, word, word]], suffix := true },
+  { kw := "BIND", code := 1112100420, alts := [[word, word], [int, int]] },
+  { kw := "BLOC", code := 1112297283, mand := [int, int], tails := [[], [word], [word, word, word]], suffix := true },
+  { kw := "BOND", code := 1112493636, tails := [[], [word], [word, word, word]], suffix := true },
+  { kw := "CONF", code := 1129270854, alts := [[], [word, word, word, word], [word, word, word, word, num], [word, word, word, word, num, num]], suffix := true },
+  { kw := "CONN", code := 1129270862, opts := [[int], [num]], tails := [[], [word], [word, word]], alts := [[word, int]], suffix := true },
+  { kw := "FREE", code := 1179796805, mand := [word, word] },
+  { kw := "HFIX", code := 1212565848, mand := [int], opts := [[num], [num]], tails := [[word], [word, word, word]], suffix := true },
+  { kw := "HTAB", code := 1213481282, alts := [[], [num], [word, word]], suffix := true },
+  { kw := "MPLA", code := 1297108033, alts := [[int, word, word, word], [word, word, word], [int, word, word, word, word]], suffix := true },
+  { kw := "RTAB", code := 1381253442, mand := [word], tails := [[word, word], [word, word, word], [word, word, word, word]], suffix := true },
+  -- restraints
+  { kw := "DEFS", code := 1145390675, opts := [[num], [num], [num], [num], [num]] },
+  { kw := "DFIX", code := 1145456984, mand := [num], opts := [[num]], tails := [[word, word], [word, word, word, word]], suffix := true },
+  { kw := "DANG", code := 1145130567, mand := [num], opts := [[num]], tails := [[word, word], [word, word, word, word]], suffix := true },
+  { kw := "SADI", code := 1396786249, opts := [[num]], tails := [[word, word, word, word], [word, word, word, word, word, word]], suffix := true },
+  { kw := "SAME", code := 1396788549, opts := [[num], [num]], tails := [[word], [word, word, word]], suffix := true },
+  { kw := "FLAT", code := 1179402580, opts := [[num]], tails := [[word, word, word, word], [word, word, word, word, word]], suffix := true },
+  { kw := "CHIV", code := 1128810838, opts := [[num], [num]], tails := [[word], [word, word]], suffix := true },
+  { kw := "DELU", code := 1145392213, opts := [[num], [num]], tails := [[], [word, word]], suffix := true },
+  { kw := "SIMU", code := 1397312853, opts := [[num], [num], [num]], tails := [[], [word, word]], suffix := true },
+  { kw := "RIGU", code := 1380534101, opts := [[num], [num]], tails := [[], [word, word]], suffix := true },
+  { kw := "ISOR", code := 1230196562, opts := [[num], [num]], tails := [[], [word, word]], suffix := true },
+  { kw := "NCSY", code := 1313035097, mand := [int], opts := [[num], [num]], tails := [[], [word, word]], suffix := true },
+  { kw := "BUMP", code := 1112886608, opts := [[num]] },
+  { kw := "EADP", code := 1161905232, tails := [[word, word], [word, word, word]], suffix := true },
+  { kw := "EXYZ", code := 1163417946, tails := [[word, word], [word, word, word]], suffix := true },
+  -- keywords of SHELXL the library lists (SHX_CARDS) but does not document: kept raw
+  { kw := "TIME", code := 1414090053, opts := [[num]], documented := false },
+  { kw := "MOLE", code := 1297042501, opts := [[int]], documented := false },
+  { kw := "HOPE", code := 1213157445, opts := [[int]], documented := false },
+  { kw := "CHAN", code := 1128808782, opts := [[int]], documented := false },
+  { kw := "FLAP", code := 1179402576, opts := [[int]], documented := false },
+  { kw := "RNUM", code := 1380865357, opts := [[int]], documented := false },
+  { kw := "SOCC", code := 1397703491, tails := [[], [word]], documented := false },
+  { kw := "RANG", code := 1380011591, opts := [[num]], tails := [[], [word, word, word]], documented := false },
+  { kw := "TANG", code := 1413566023, opts := [[num]], tails := [[], [word, word, word]], documented := false },
+  { kw := "ADDA", code := 1094992961, tails := [[], [word]], documented := false },
+  { kw := "STAG", code := 1398030663, opts := [[num]], tails := [[], [word]], documented := false },
+  { kw := "REST", code := 1380275028, tails := [[], [word]], documented := false },
+  { kw := "NOTR", code := 1313821778, documented := false },
+  { kw := "BEDE", code := 1111835717, tails := [[word, word, word, num, num]], documented := false },
+  { kw := "LONE", code := 1280265797, tails := [[int, word, num, num]], documented := false }
+]
+
+def prefixes {α} : List (List α) → List (List α)
+  | [] => [[]]
+  | g :: gs => [] :: (prefixes gs).map (g ++ ·)
+
+/-- the legal parameter lists of one table entry -/
+def Syn.paramLists (s : Syn) : List (List Kind) :=
+  ((prefixes s.opts).flatMap fun p => s.tails.map fun t => s.mand ++ p ++ t) ++ s.alts
+
+/-- a real-valued parameter may be written `2`, `2.0` or `.5` -/
+def restyle (to : Kind) (l : List Kind) : List Kind := l.map fun k => if k == .num then to else k
+
+def styles : List Kind := [.num, .int, .dnum]
+
+def Syn.forms (s : Syn) : List Form :=
+  s.paramLists.flatMap fun p => styles.map fun st => ({ kw := s.kw, toks := restyle st p, code := s.code } : Form)
+
+def validForms (kw : String) : List Form := (syntaxTable.filter (·.kw == kw)).flatMap Syn.forms
+
+def allValidForms : List Form := syntaxTable.flatMap Syn.forms
+
+/-- atom lines: `name sfac x y z`, `… sof`, `… sof U`, `… sof U11 … U12`, Q-peak (`sof U height`), any of the
+    coordinates / sof / U carrying a free-variable code -/
+def atomForms : List Form :=
+  let cols : List (List Kind) := [
+    [.int, .num, .num, .num],
+    [.int, .num, .num, .num, .big],
+    [.int, .num, .num, .num, .big, .num],
+    [.int, .num, .num, .num, .num, .num],
+    [.int, .num, .num, .num, .big, .num, .num],
+    [.int, .num, .num, .num, .big, .num, .num, .num, .num, .num, .num],
+    [.int, .big, .num, .num, .big, .num],
+    [.int, .num, .big, .big, .big, .big],
+    [.int, .num, .num, .num, .big, .big, .num, .num, .num, .num, .num],
+    [.int, .int, .int, .int, .big, .num]]
+  cols.map fun c => { kw := "C1", toks := c, code := 17201 }
+
+/-- where a header keyword may stand: the keyword that was seen last among TITL CELL ZERR LATT SYMM SFAC UNIT
+    (the parser's `lastcard`) -/
+def Slot.ctxs : Slot → List Ctx
+  | .titl => [{}]
+  | .cell => [{ last := "TITL" }]
+  | .zerr => [{ last := "CELL", flags := ["cell"] }]
+  | .latt => [{ last := "ZERR", flags := ["cell"] }]
+  | .symm => [{ last := "ZERR", flags := ["cell", "latt"] }, { last := "SYMM", flags := ["cell", "latt"] }]
+  | .neut => [{ last := "ZERR", flags := ["cell", "latt"] }, { last := "SYMM", flags := ["cell", "latt"] }]
+  | .sfac => [{ last := "ZERR", flags := ["cell", "latt"] }, { last := "SYMM", flags := ["cell", "latt"] },
+              { last := "SFAC", flags := ["cell", "latt", "sfac"] }]
+  | .disp => [{ last := "SFAC", flags := ["cell", "latt", "sfac"] }]
+  | .unit => [{ last := "SFAC", flags := ["cell", "latt", "sfac"] }]
+  | .tail => [{ last := "UNIT", flags := ["cell", "latt", "sfac", "end"] }]
+  | .fend => [{ last := "UNIT", flags := ["cell", "latt", "sfac", "frag"] }]
+  | .body => [{ last := "ZERR", flags := ["cell", "latt"] }, { last := "SYMM", flags := ["cell", "latt"] },
+              { last := "UNIT", flags := ["cell", "latt", "sfac"] }, { last := "UNIT", flags := ["cell", "latt", "sfac", "end"] }]
+  | _ => [{ last := "UNIT", flags := ["cell", "latt", "sfac"] }, { last := "UNIT", flags := ["cell", "latt", "sfac", "end"] }]
+
+def slotOf (kw : String) : Slot := match syntaxTable.find? (·.kw == kw) with | some s => s.slot | none => .body
+
+/-- all (context, line) pairs the syntax allows, for one keyword -/
+def validCases (kw : String) : List (Ctx × Form) :=
+  (slotOf kw).ctxs.flatMap fun c => (validForms kw).map fun f => (c, f)
+
+/-- the tests the translator cannot interpret and that valid input never triggers (each is named in
+    `ctx.assumptions` of the harness and met by construction by the generator) -/
+def assumed : List String := [
+  "self.residue_number < -999 or self.residue_number > 9999",        -- residue numbers are in range
+  "len(self.unit.values) != len(self.sfac_table.elements_list)",     -- UNIT has one number per SFAC element
+  "len(self.atoms) % 2 != 0",                                        -- DFIX/DANG/SADI carry atom *pairs*
+  "0.0001 < self.d <= self.s",                                       -- DANG: the target distance exceeds its esd
+  "not:self.d", "not:self.DN",                                       -- DFIX/DANG d and NCSY DN are not zero
+  "not:line.strip()"                                                 -- the line is not blank
+]
+
+def Slot.isBody (s : Slot) : Bool := s == .body || s == .fvar || s == .hklf || s == .endd
+
+/-- every (context, line) pair the syntax allows -/
+def allValidCases : List (Ctx × Form) :=
+  syntaxTable.flatMap fun s => s.slot.ctxs.flatMap fun c => s.forms.map fun f => (c, f)
+
+/-- an atom line none of whose coordinates carries a free-variable code -/
+def plainCoords (f : Form) : Bool := !((f.toks.take 4).drop 1).any (· == .big)
+
+/-- the section of a file between UNIT and the end: instructions, FVAR, atoms, HKLF, END, WGHT, Q-peaks
+    (FRAG…FEND blocks and coded coordinates are the open findings and stay outside) -/
+def bodyForms : List Form :=
+  ((syntaxTable.filter fun s => s.slot.isBody).flatMap Syn.forms)
+    ++ atomForms.filter plainCoords
+
+def bodyCtxs : List Ctx :=
+  [{ last := "UNIT", flags := ["cell", "latt", "sfac"] }, { last := "UNIT", flags := ["cell", "latt", "sfac", "end"] }]
+
+/-- everything the table-driven theorems need to know about one entry of the syntax table, computed with ONE
+    branch selection per keyword: the keyword is listed in `SHX_CARDS` (so the line is never taken for an atom), a
+    keyword branch (not the final `else`) handles it, every legal form is accepted in every context the syntax
+    allows and in every mode, and a body line met in a body context leaves a body context behind -/
+def entryOk (T : Tables) (s : Syn) : Bool :=
+  T.shxCodes.contains s.code &&
+  match selectKw T s.code with
+  | some b => b.test != .otherwise && s.slot.ctxs.all fun c => s.forms.all fun f => allModes.all fun m =>
+      match runBranch T m c b f with
+      | .ok c' => !(s.slot.isBody && bodyCtxs.contains c) || bodyCtxs.contains c'
+      | .error _ => false
+  | none => false
+
+/-- the same for the atom-line shapes with plain coordinates (selection through `is_atom` itself) -/
+def atomOk (T : Tables) (f : Form) : Bool :=
+  lineIsAtom T f && bodyCtxs.all fun c => allModes.all fun m =>
+    match stepLine T m c f with
+    | .ok c' => bodyCtxs.contains c'
+    | .error _ => false
+
+/-- SPEC: what the property says about a file of valid lines, in one mode -/
+def SpecHolds (o : Outcome) (n : Nat) : Prop := o.innerErr = none ∧ o.raised = none ∧ o.consumed = n ∧ o.lastLine = n - 1
 
 end Shelx.C02
